@@ -106,3 +106,7 @@ def run(ctx):
     r = ctx.rule("R2p", "x86_64 branch-free compare / not / and / or: compare masks and bitwise selects give the opcode's value in every lane (symbolic masks)", 8)
     for kind in AC.ALL:
         ctx.guarded(r, XS86.check_mask_logic, kind)
+    from .. import x86pw as PW86
+
+    r = ctx.rule("R2q", "x86_64 single-point min / max / and / or / compare: on every order type of the operands exactly one path is selected and leaves the interpreter's value (path summaries; output aliased, shared and immediate operands)", 5)
+    ctx.guarded(r, PW86.check_piecewise, "point", choices=False)
